@@ -188,6 +188,16 @@ impl Check for C18 {
             scn.sampling.script = script;
             scn.family = format!("{}+alphabet", scn.family);
         }
+        // one scenario in twenty: the user's validity checker UNWINDS at its k-th call inside
+        // roadmap construction; the caller catches it and goes on with the roadmap built so far
+        // (construct again: a no-op; queries). What construction had done up to that instant
+        // must be a well-formed roadmap.
+        if rng.chance(0.05) {
+            let k = 4 + rng.below(6 * n.max(1));
+            scn.faults.push(FaultSpec::ValidityPanicAt { at_call: k });
+            scn.calls = vec![CallSpec::Setup { problem: 0 }, gen::construct_call(n), gen::construct_call(n), big(), CallSpec::SetProblem { problem: 1 }, big()];
+            scn.params.insert("interrupted_construction".into(), 1.0);
+        }
         // a tenth of the scenarios assign the public parameter fields after setup (the
         // constructor got other values)
         if rng.chance(0.1) {
@@ -244,6 +254,10 @@ impl Check for C18 {
                         continue;
                     }
                     constructed = true;
+                    let interrupted = matches!(call.res, Res::UserPanic);
+                    if interrupted {
+                        rep.probe("construction_interrupted");
+                    }
                     // model: milestones = samples whose first validity answer was true
                     let mut i = 0;
                     while i < evs.len() {
@@ -259,6 +273,11 @@ impl Check for C18 {
                             }
                         }
                         i += 1;
+                    }
+                    // (an interrupted construction: the sample being processed when the checker
+                    // unwound may or may not have become a milestone — the model allows both)
+                    if interrupted && snap.len() + 1 == model_ms.len() {
+                        model_ms.pop();
                     }
                     if snap.len() != model_ms.len() || !snap.iter().zip(&model_ms).all(|(a, b)| bits_eq(&a.0, b)) {
                         v.push(viol(
@@ -510,6 +529,8 @@ impl Check for C18 {
                         Res::Err(ErrKind::Timeout) => {
                             rep.probe("query_timeout");
                         }
+                        // the injected unwinding fell into this query: nothing to judge
+                        Res::UserPanic => {}
                         other => {
                             v.push(viol("C18", "C18/unexpected_result".into(), format!("query returned {}", other.short())));
                             break 'calls;
